@@ -246,6 +246,27 @@ type tsContent struct {
 	audio []byte // concatenated audio PES payloads
 	vType uint8
 	hasV  bool
+	// raw: transport payload bytes per PID, whether or not a program map announces the PID (a consumer that stayed
+	// attached across incarnations keeps the first incarnation's tables)
+	raw map[uint16][]byte
+}
+
+// carries reports whether the unit occurs in the stream: in the elementary
+// stream of its kind, or in the raw payload of any PID.
+func (tc *tsContent) carries(n needle) bool {
+	hay := tc.video
+	if n.audio {
+		hay = tc.audio
+	}
+	if bytes.Contains(hay, n.data) {
+		return true
+	}
+	for _, b := range tc.raw {
+		if bytes.Contains(b, n.data) {
+			return true
+		}
+	}
+	return false
 }
 
 // demuxTsLive is demuxTs for a stream that was cut by closing the connection:
@@ -273,7 +294,12 @@ func demuxTsOpt(data []byte, cut bool) (*tsContent, error) {
 			return nil, fmt.Errorf("%s", pr.String())
 		}
 	}
-	out := &tsContent{res: res}
+	out := &tsContent{res: res, raw: map[uint16][]byte{}}
+	for _, p := range res.Packets {
+		if p.PID > 0x1f && len(p.Payload) > 0 {
+			out.raw[p.PID] = append(out.raw[p.PID], p.Payload...)
+		}
+	}
 	vp, ap := map[uint16]bool{}, map[uint16]bool{}
 	for _, m := range res.PMTs {
 		for _, es := range m.Streams {
@@ -696,10 +722,7 @@ func (w *world) tsTail(a *attached, i, incStart int, who string, need []needle) 
 		if err != nil {
 			return false
 		}
-		if last.audio {
-			return bytes.Contains(tc.audio, last.data)
-		}
-		return bytes.Contains(tc.video, last.data)
+		return tc.carries(last)
 	}
 	// quick path: it arrives; otherwise wait until nothing is in flight any more
 	prev := -1
@@ -723,11 +746,7 @@ func (w *world) tsTail(a *attached, i, incStart int, who string, need []needle) 
 	earlier := ""
 	vN, aN := w.tsNeedles(a.j, last.idx)
 	for _, n := range append(vN, aN...) {
-		hay := tc.video
-		if n.audio {
-			hay = tc.audio
-		}
-		if bytes.Contains(hay, n.data) {
+		if tc.carries(n) {
 			earlier = n.what
 			break
 		}
